@@ -90,7 +90,10 @@ def gen_cases(tier, seed):
         yield {"kind": "history", "driver": driver, "names": names, "ncls": ncls, "dircopy": dircopy, "bset": bset, "pre": pre, "steps": steps, "fs": "ext4",
                "workers": r.choice([0, 1, 2, 4]), "spell": spell, "linkdest": linkdest,
                # the backup rename itself may be refused (sticky directory and somebody else's file): nothing may be lost then either
-               "refuse_rename": r.random() < 0.08}
+               "refuse_rename": r.random() < 0.08,
+               # ... or the scan of the destination directory for existing backups fails part-way (EIO, a stale handle): a listing
+               # that could not be read is not an empty listing
+               "listing_fault": r.choice([1, 1, 2, 3]) if r.random() < 0.15 else 0}
     # kill-point enumeration of one overwrite step per (driver, mode)
     for driver in ("parfile", "parblock"):
         for mode in ("numbered", "auto"):
@@ -218,7 +221,13 @@ def run_history(case, res):
             write_sources(root, st["files"])
             before = listing(root, ddir)
             else_before = listing(root, "elsewhere") if case.get("linkdest") else {}
-            if case.get("refuse_rename"):
+            if case.get("listing_fault") and not case.get("refuse_rename"):
+                run = core.run_supervised(sb, core.xcp_argv([a.replace("@ROOT@", root) for a in step_args(case, st["mode"], case["workers"])]),
+                                          {"log_mode": "none", "rules": [{"id": "g", "sys": "getdents64", "under": root + "/dst", "action": "fault", "errno": 5, "from": case["listing_fault"]}]},
+                                          cwd=step_cwd(case, root))
+                if run.verdict == "exited" and run.rule("g")["applied"]:
+                    res["counters"]["steps-with-listing-fault"] = res["counters"].get("steps-with-listing-fault", 0) + 1
+            elif case.get("refuse_rename"):
                 run = core.run_supervised(sb, core.xcp_argv([a.replace("@ROOT@", root) for a in step_args(case, st["mode"], case["workers"])]),
                                           {"log_mode": "none", "rules": [{"id": "r", "sys": sc, "under": root + "/", "action": "fault", "errno": 1} for sc in ("rename", "renameat", "renameat2")]},
                                           cwd=step_cwd(case, root))
